@@ -519,7 +519,7 @@ class Column:
     def set_check_in_columm(check: Optional[List]) -> Optional[str]:
         if check:
             check_statement = ""
-            for n, item in enumerate(check):
+            for n, item in enumerate([check] if isinstance(check, str) else check):
                 if isinstance(item, list):
                     in_clause = ", ".join(item)
                     check_statement += f" ({in_clause})"
